@@ -111,9 +111,20 @@ func RunWorker(jobPath, outPath string) {
 }
 
 var (
-	minimised   = map[string]bool{}
-	minimisedMu sync.Mutex
+	minimised    = map[string]bool{}
+	minimisedMu  sync.Mutex
+	bisectBudget = 12 // per worker process
 )
+
+func takeBisectBudget() bool {
+	minimisedMu.Lock()
+	defer minimisedMu.Unlock()
+	if bisectBudget <= 0 {
+		return false
+	}
+	bisectBudget--
+	return true
+}
 
 func runBatch(idx int, mods []Module, job *Job) BatchResult {
 	res := BatchResult{Batch: idx, N: len(mods), ByRule: map[string]int{}}
@@ -174,6 +185,18 @@ func runBatch(idx int, mods []Module, job *Job) BatchResult {
 		out = LintBatch(parsed, timeout)
 		res.Lints++
 		if out.Err == "" {
+			break
+		}
+		// when a change breaks linting wholesale, bisecting every batch would take hours: after a few
+		// culprits with minimised witnesses the remaining failing batches are recorded as they are
+		if !takeBisectBudget() {
+			fl := Failure{Key: FailureKey(out.Err), Err: out.Err + " (batch not bisected: too many failures in this run)", Timeout: out.Timeout}
+			for _, p := range parsed {
+				fl.Modules = append(fl.Modules, p.Module)
+			}
+			res.Failures = append(res.Failures, fl)
+			parsed = nil
+			out = Outcome{}
 			break
 		}
 		fl := Bisect(parsed, timeout)
